@@ -213,7 +213,77 @@ def obligations(tier, seed):
         merged.append(r)
     out = [r for r in merged]
     out += _tuple_impls(core)
+    out += _whole_value_impls(core)
     return out
+
+
+def _whole_value_impls(core):
+    """ToRpcParams for maps, slices, vectors, arrays (and every tuple impl that takes this route): the value itself is serialised once (to_raw_value(&self)); the call
+    returns Ok(Some(exactly that text)) when that succeeded and that very error otherwise"""
+    from ..sym import Fork, to_term
+    from .. import mapmodels as MM
+    res = []
+    bods = R.find_body(core, r"^fn traits::<impl at core/src/traits\.rs:[\d: ]+>::to_rpc_params\(_1: ", all_=True)
+    seen_kinds = set()
+    for b in bods:
+        m = re.search(r"to_rpc_params\(_1: (.*)\) -> Result<", b.header)
+        ty = m.group(1) if m else "?"
+        kind = "tuple" if ty.startswith("(") else ty
+        ok = z3.Bool("to_raw_value.ok")
+
+        def m_raw(ex, st, callee, args, dty, site):
+            a = args[0]
+            src = a.node.name if isinstance(a, Ptr) else str(a)
+            st["events"].append(__import__("mirsym.sym", fromlist=["Event"]).Event("c20", f"raw={src}", [], [], None, None, "", ""))
+            return Fork([(ok, lambda ex_, st_, tr: ex_.mk_variant("Result", 0, "Ok", Opaque(z3.Const("the_text_of_the_value", OBJ)))),
+                         (z3.Not(ok), lambda ex_, st_, tr: ex_.mk_variant("Result", 1, "Err", Opaque(z3.Const("the_serialisation_error", OBJ))))])
+        ctx = P.make_ctx(core, extra_models=[(r"^to_raw_value::<", m_raw)] + list(S.SEQ_MODELS) + list(S.TRY_MODELS))
+        ctx.inline = []
+        ex = Executor(ctx)
+        paths = ex.run(b)
+        bad = [(p.kind, p.detail) for p in paths if p.kind != "return"]
+        viol, reach = [], {"ok": [], "err": []}
+        uses_raw = False
+        for p in paths:
+            if p.kind != "return":
+                continue
+            raws = [e.callee for e in p.events if e.kind == "c20"]
+            if not raws:
+                continue        # a tuple impl that inserts its fields one by one: order:tuple-impl decides it
+            uses_raw = True
+            d = z3.simplify(ex.discr_of(p.ret))
+            good = raws == ["raw=arg1"] and z3.is_bv_value(d)
+            if good and d.as_long() == 0:
+                o = ex.read_node(p.ret.kids[("Ok", 0)])
+                od = z3.simplify(ex.discr_of(o)) if isinstance(o, Node) else None
+                pay = ex.read_node(o.kids[("Some", 0)]) if od is not None and z3.is_bv_value(od) and od.as_long() == 1 and ("Some", 0) in o.kids else None
+                good = pay is not None and "the_text_of_the_value" in str(to_term(pay))
+                reach["ok"].append(p.cond())
+                viol.append(z3.And(p.cond(), z3.Or(z3.Not(ok), z3.BoolVal(not good))))
+            elif good:
+                e = ex.read_node(p.ret.kids[("Err", 0)])
+                good = "the_serialisation_error" in str(to_term(e))
+                reach["err"].append(p.cond())
+                viol.append(z3.And(p.cond(), z3.Or(ok, z3.BoolVal(not good))))
+            else:
+                viol.append(p.cond())
+        if not uses_raw and kind == "tuple":
+            continue
+        seen_kinds.add(kind)
+        name = f"order:whole-value-impl:{ty}"
+        reach_l = R.live_reach(viol, reach, bad)
+        if bad or not all(reach_l):
+            res.append(R.Result(engine="mirsym", name=name, kind="order", status="unsupported" if bad else "vacuous", detail=str(bad[:1] or {k: len(v) for k, v in reach.items()})[:300], bodies=[b.name]))
+            continue
+        arity = len([x for x in ty.strip("()").split(",") if x.strip()]) if kind == "tuple" else None
+        rp = {"scenario": "c20_tuple", "vars": {}, "fixed": ({"arity": arity} if arity else {"containers": True}), "region": z3.BoolVal(True)}
+        res.append(R.decide(name, "order", z3.Or(*viol) if viol else z3.BoolVal(False), [z3.Or(*v) for v in reach_l], bodies=[b.name], replay=rp,
+                            desc=f"ToRpcParams for {ty}: the value itself is serialised exactly once; Ok(Some(that text)) when it succeeded, that very error otherwise",
+                            bounds="all paths of the impl; serialisation succeeds / fails", keydetail="whole-value:" + kind))
+    missing = {"serde_json::Map<std::string::String, serde_json::Value>", "&[P]", "Vec<P>", "[P; N]"} - seen_kinds
+    if missing:
+        res.append(R.Result(engine="mirsym", name="order:whole-value-impl", kind="order", status="site-missing", detail=f"impls not found: {sorted(missing)} - spec needs update", bodies=[]))
+    return res
 
 
 def _tuple_impls(core):
